@@ -11,6 +11,12 @@ import (
 // nfc: strings held by string values are NFC-normalised.
 func nfc(s string) string { return norm.NFC.String(s) }
 
+/*@ func NewValueString
+    serves C04, C13
+    inline
+    ensures @normalised result != nil && (*result).Kind() == StringValueKind && (*result).(ValueString).Inner == nfc(inner)
+@*/
+
 // Specification vocabulary and contracts checked by /verif/hvc (build tag
 // verif only; see /verif/DESIGN.md).
 
